@@ -127,6 +127,8 @@ type storeFS struct {
 	events []string
 	// removeFails: Remove is refused (the partial copy cannot be removed)
 	removeFails bool
+	// openFailOnce: the next Open (for reading) fails with an error that is not "does not exist"
+	openFailOnce bool
 }
 
 func (s *storeFS) event(what string) {
@@ -222,6 +224,13 @@ type storeFull struct{ *storeFS }
 type storeMin struct{ *storeFS }
 
 func (s *storeFS) Open(name string) (hackpadfs.File, error) {
+	s.mu.Lock()
+	failNow := s.openFailOnce
+	s.openFailOnce = false
+	s.mu.Unlock()
+	if failNow {
+		return nil, &hackpadfs.PathError{Op: "open", Path: name, Err: errInjected}
+	}
 	f, err := s.fs.Open(name)
 	if err != nil {
 		return nil, err
@@ -897,6 +906,44 @@ func runC11(r *Rng, n int, replay string) {
 				c.Coq = fmt.Sprintf("(%s, %s, %s, %s, %s)", cBytes(data), cNat(k), stc.concEvents(name), cNat(nc), cNat(ne))
 				c.CType, c.Check = "C11conc_case", "C11conc_check"
 			}
+			emit(c)
+		}
+		// the cache store cannot open the cached copy (once): the open reports an error or serves the complete bytes --
+		// it never hands out a nil handle with a nil error
+		if size > 0 && id < n {
+			src := mkSrc()
+			st, store := newStore(minimal)
+			cfs, _ := cache.NewReadOnlyFS(src, store, cache.ReadOnlyOptions{})
+			c := &Case{ID: id, Kind: "store-open-fails", Trivial: true}
+			id++
+			c.Cells = []string{"store-open-fails"}
+			hdr := fmt.Sprintf("file %q of %d bytes is cached; then the cache store's Open fails once", name, size)
+			c.Text = []string{hdr}
+			if f, err := cfs.Open(name); err == nil {
+				_, _ = readAllOf(f)
+				_ = f.Close()
+			}
+			st.mu.Lock()
+			st.openFailOnce = true
+			st.mu.Unlock()
+			func() {
+				defer func() {
+					if e := recover(); e != nil {
+						c.fail(fmt.Sprintf("%s: panicked: %v", hdr, e), "store-open-fails:panic")
+					}
+				}()
+				f, err := cfs.Open(name)
+				switch {
+				case err == nil && f == nil:
+					c.fail(hdr+": Open returned a nil handle and a nil error", "store-open-fails:nil-nil")
+				case err == nil:
+					got, rerr := readAllOf(f)
+					_ = f.Close()
+					if rerr != nil || !bytes.Equal(got, data) {
+						c.fail(fmt.Sprintf("%s: the open succeeded with %d of %d bytes", hdr, len(got), len(data)), "store-open-fails:partial")
+					}
+				}
+			}()
 			emit(c)
 		}
 		// a failing fill while a second opener is already waiting for the same name: the clean-up of the partial copy
